@@ -2020,3 +2020,186 @@ mod test {
         }
     }
 }
+
+// Read-only accounting of page ownership for the external verification harness, computed with the
+// same walkers that the repair path uses. Compiled only with --cfg redb_verif.
+#[cfg(redb_verif)]
+#[derive(Debug, Clone, Default)]
+pub struct VerifRegionAccounting {
+    pub len: u32,
+    pub max_order: u8,
+    /// order-0 pages that no free block covers
+    pub allocated: Vec<u32>,
+    /// per order, one entry per block: true = marked free at that order
+    pub free_bits: Vec<Vec<bool>>,
+}
+
+/// Page numbers are in their 8-byte on-disk encoding
+#[cfg(redb_verif)]
+#[derive(Debug, Clone, Default)]
+pub struct VerifAccounting {
+    pub page_size: u32,
+    pub full_region_pages: u32,
+    pub layout_len: u64,
+    pub regions: Vec<VerifRegionAccounting>,
+    /// per order, one entry per tracked region: true = marked full
+    pub tracker_full: Vec<Vec<bool>>,
+    pub data_tree: Vec<u64>,
+    pub system_tree: Vec<u64>,
+    pub data_freed_table: Vec<u64>,
+    pub system_freed_table: Vec<u64>,
+    pub data_allocated_table: Vec<(u64, Vec<u64>)>,
+    pub unpersisted_pages: Vec<u64>,
+    pub unpersisted_allocations: Vec<(u64, Vec<u64>)>,
+    pub unpersisted_data_freed: Vec<(u64, Vec<u64>)>,
+    pub post_commit_allocations: Vec<u64>,
+    pub last_committed_transaction: u64,
+    pub pending_non_durable_commit: bool,
+}
+
+#[cfg(redb_verif)]
+impl Database {
+    /// Must be called while no write transaction is live
+    pub fn verif_accounting(&self) -> Result<VerifAccounting, StorageError> {
+        fn raw(page: PageNumber) -> u64 {
+            u64::from_le_bytes(page.to_le_bytes())
+        }
+        let mem = &self.mem;
+        let mut result = VerifAccounting::default();
+        let (_, full_region_pages, page_size, layout_len) = mem.verif_layout();
+        result.page_size = page_size;
+        result.full_region_pages = full_region_pages;
+        result.layout_len = layout_len;
+        for region in mem.verif_regions() {
+            result.regions.push(VerifRegionAccounting {
+                len: region.len,
+                max_order: region.max_order,
+                allocated: region.allocated,
+                free_bits: region.free_bits,
+            });
+        }
+        result.tracker_full = mem.verif_tracker();
+
+        let data_root = mem.get_data_root();
+        let system_root = mem.get_system_root();
+        {
+            let tables = TableTree::new(
+                data_root,
+                PageHint::None,
+                Arc::new(TransactionGuard::untracked()),
+                PageResolver::new(mem.clone()),
+            )?;
+            tables.visit_all_pages(|path| {
+                result.data_tree.push(raw(path.page_number()));
+                Ok(())
+            })?;
+        }
+        {
+            let tables = TableTree::new(
+                system_root,
+                PageHint::None,
+                Arc::new(TransactionGuard::untracked()),
+                PageResolver::new(mem.clone()),
+            )?;
+            tables.visit_all_pages(|path| {
+                result.system_tree.push(raw(path.page_number()));
+                Ok(())
+            })?;
+        }
+        Self::visit_freed_tree(system_root, DATA_FREED_TABLE, mem.clone(), |page| {
+            result.data_freed_table.push(raw(page));
+            Ok(())
+        })?;
+        Self::visit_freed_tree(system_root, SYSTEM_FREED_TABLE, mem.clone(), |page| {
+            result.system_freed_table.push(raw(page));
+            Ok(())
+        })?;
+        {
+            let resolver = PageResolver::new(mem.clone());
+            let table_tree = TableTree::new(
+                system_root,
+                PageHint::None,
+                Arc::new(TransactionGuard::untracked()),
+                resolver.clone(),
+            )?;
+            if let Some(table_def) = table_tree
+                .get_table::<TransactionIdWithPagination, PageList>(
+                    DATA_ALLOCATED_TABLE.name(),
+                    TableType::Normal,
+                )
+                .map_err(|e| e.into_storage_error_or_corrupted("Allocated pages table corrupted"))?
+            {
+                let InternalTableDefinition::Normal { table_root, .. } = table_def else {
+                    unreachable!()
+                };
+                let table: ReadOnlyTable<TransactionIdWithPagination, PageList> =
+                    ReadOnlyTable::new(
+                        DATA_ALLOCATED_TABLE.name().to_string(),
+                        table_root,
+                        PageHint::None,
+                        Arc::new(TransactionGuard::untracked()),
+                        resolver,
+                    )?;
+                for entry in ReadableTable::iter(&table)? {
+                    let (key, pages) = entry?;
+                    let mut list = vec![];
+                    for i in 0..pages.value().len() {
+                        list.push(raw(pages.value().get(i)));
+                    }
+                    result
+                        .data_allocated_table
+                        .push((key.value().transaction_id, list));
+                }
+            }
+        }
+        let unpersisted = mem.verif_unpersisted();
+        result.unpersisted_pages = unpersisted.pages.into_iter().map(raw).collect();
+        result.unpersisted_allocations = unpersisted
+            .allocations
+            .into_iter()
+            .map(|(id, pages)| (id, pages.into_iter().map(raw).collect()))
+            .collect();
+        result.unpersisted_data_freed = unpersisted
+            .data_freed
+            .into_iter()
+            .map(|(id, pages)| (id, pages.into_iter().map(raw).collect()))
+            .collect();
+        result.post_commit_allocations = unpersisted
+            .post_commit_allocations
+            .into_iter()
+            .map(raw)
+            .collect();
+        result.last_committed_transaction = mem.get_last_committed_transaction_id()?.raw_id();
+        result.pending_non_durable_commit = mem.pending_non_durable_commit();
+        Ok(result)
+    }
+
+    /// Byte range of a page (in its 8-byte on-disk encoding) within the storage
+    pub fn verif_page_offset(&self, page: u64) -> (u64, u64) {
+        self.mem
+            .verif_page_offset(PageNumber::from_le_bytes(page.to_le_bytes()))
+    }
+
+    /// Allocates a block of 2^order pages directly from the page allocator, outside of any
+    /// transaction. Returns (region, index). For allocator-only exploration: the database must
+    /// not be used for transactions afterwards unless every such block has been freed again.
+    pub fn verif_allocate(&self, order: u8, lowest: bool) -> Result<(u32, u32), StorageError> {
+        let page = self.mem.verif_allocate(order, lowest)?;
+        Ok((page.region, page.page_index))
+    }
+
+    pub fn verif_free(&self, region: u32, index: u32, order: u8) {
+        self.mem.verif_free(PageNumber::new(region, index, order));
+    }
+}
+
+#[cfg(all(redb_verif, not(redb_no_std)))]
+impl Builder {
+    /// `open_read_only()` over a caller-supplied backend instead of a file path
+    pub fn verif_open_read_only_with_backend(
+        &self,
+        backend: impl StorageBackend,
+    ) -> Result<ReadOnlyDatabase, DatabaseError> {
+        ReadOnlyDatabase::new(Box::new(backend), self.page_size, None, self.cache_size)
+    }
+}
